@@ -42,6 +42,9 @@ Proof. intros Hp Hf s. unfold p_map. eapply rel_bind; [apply Hp|]. intros; const
 Lemma rel_alt {A} (R : A -> A -> Prop) p q p' q' : Rp R p p' -> Rp R q q' -> Rp R (p_alt p q) (p_alt p' q').
 Proof. intros Hp Hq s. unfold p_alt. destruct (Hp s); [constructor; auto | apply Hq | constructor]. Qed.
 
+Lemma rel_restore {A} (R : A -> A -> Prop) p p' : Rp R p p' -> Rp R (p_restore p) (p_restore p').
+Proof. intros Hp s. unfold p_restore. destruct (Hp s); constructor; auto. Qed.
+
 Lemma rel_opt {A} (R : A -> A -> Prop) p p' : Rp R p p' -> Rp (Ropt R) (p_opt p) (p_opt p').
 Proof. intros Hp s. unfold p_opt. destruct (Hp s); constructor; cbn; auto. Qed.
 
@@ -328,7 +331,8 @@ Lemma rel_stmt f : Rp eq (p_stmt toks1 f) (p_stmt toks2 f).
 Proof.
   induction f as [|f IH]; [intros s; constructor|].
   intros s. rewrite !p_stmt_S. unfold stmt_ref. revert s.
-  repeat apply rel_alt; try apply rel_call; try apply rel_assign.
+  apply rel_alt; [|apply rel_alt; [|apply rel_alt; [|apply rel_alt; [|apply rel_alt; [apply rel_call|
+    apply rel_alt; [apply rel_assign|apply rel_restore]]]]]].
   - eapply rel_map; [rel_with leaf2|]. intros a b H. crush_rel; reflexivity.
   - eapply rel_map; [rel_with ltac:(first [leaf2 | exact IH])|]. intros a b H. crush_rel; reflexivity.
   - eapply rel_map; [rel_with ltac:(first [leaf2 | exact IH])|]. intros a b H. crush_rel; reflexivity.
